@@ -679,6 +679,36 @@ func (c *FnCtx) stdModel(fr *frame, st *State, site ssa.Instruction, name string
 			c.assume("", fmt.Sprintf("(not (= %s (mk_Iface 0 0)))", t.S))
 		}
 		return r, true
+	case name == "strings.Contains" || name == "strings.HasSuffix" || name == "strings.HasPrefix":
+		// pure functions of their two string arguments (uninterpreted)
+		a, aok := c.valIn(fr, cc.Args[0]).(Term)
+		b, bok := c.valIn(fr, cc.Args[1]).(Term)
+		if aok && bok {
+			fn := map[string]string{"strings.Contains": "str_contains", "strings.HasSuffix": "str_hassuffix", "strings.HasPrefix": "str_hasprefix"}[name]
+			return Term{S: fmt.Sprintf("(%s %s %s)", fn, a.S, b.S), Sort: SBool, T: types.Typ[types.Bool]}, true
+		}
+		return c.noopCall(st, cc.Signature()), true
+	case name == "strings.ToLower":
+		if a, ok := c.valIn(fr, cc.Args[0]).(Term); ok {
+			return Term{S: fmt.Sprintf("(str_lower %s)", a.S), Sort: SInt, T: types.Typ[types.String]}, true
+		}
+		return c.noopCall(st, cc.Signature()), true
+	case name == "strings.Split":
+		// a fresh slice of str_nsplit(s, sep) >= 1 strings; element k is str_part(s, sep, k) (uninterpreted)
+		a, aok := c.valIn(fr, cc.Args[0]).(Term)
+		b, bok := c.valIn(fr, cc.Args[1]).(Term)
+		if aok && bok {
+			et := types.Typ[types.String]
+			reg := c.elemRegion(et)
+			r := c.newRef(st, st.g)
+			arr := c.fresh("ssplit", fmt.Sprintf("(Array Int %s)", c.sortOf(et)))
+			c.assume("", fmt.Sprintf("(forall ((i Int)) (! (= (select %s i) (str_part %s %s i)) :pattern ((select %s i))))", arr, a.S, b.S, arr))
+			c.set(st, reg, fmt.Sprintf("(store %s %s %s)", c.get(st, reg), r, arr))
+			ln := fmt.Sprintf("(str_nsplit %s %s)", a.S, b.S)
+			c.assume("", fmt.Sprintf("(>= %s 1)", ln))
+			return Term{S: mkSlice(r, "0", ln, ln), Sort: SSlice, T: types.NewSlice(et)}, true
+		}
+		return c.noopCall(st, cc.Signature()), true
 	case strings.HasPrefix(name, "time."), strings.HasPrefix(name, "runtime."), strings.HasPrefix(name, "math."), strings.HasPrefix(name, "strings."), strings.HasPrefix(name, "os."), strings.HasPrefix(name, "errors."):
 		return c.noopCall(st, cc.Signature()), true
 	}
